@@ -611,6 +611,12 @@ var streamForms = []form{
 	{prog: "def f: (., .), (. + 1 | f); 0 | f"},
 	{prog: "def f: first(., 1), (. + 1 | f); 0 | f"},
 	{prog: "def f: (try error(\"x\") catch .), (. + 1 | f); 0 | f"},
+	{prog: "def f: try error catch (., (. + 1 | f)); 0 | f"},
+	{prog: "def w(c; u): def _w: if c then ., (u | _w) else empty end; _w; 0 | w(true; . + 1)"},
+	{prog: "def w($n): def _w: if . < $n then ., (. + 1 | _w) else empty end; _w; 0 | w(1000000000)"},
+	{prog: "def w($n): def _w: . as $x | if $x < $n then $x, ($x + 1 | _w) else empty end; _w; 0 | w(1000000000)"},
+	{prog: "def rp(f): def _r: f, _r; _r; rp(1, 2)"},
+	{prog: "def rc(f): def r: ., (f | r); r; 0 | rc(. + 1)"},
 	{prog: "def f: input, f; f"},
 	{prog: "def f: input as $x | $x, f; f"},
 	{prog: "def f: {i: .i, a: .a}, (.i += 1 | f); {i: 0, a: 0} | f | .i"},
@@ -659,6 +665,12 @@ var turnForms = []form{
 	{prog: "def f: def g: if .[1] < 3 then [.[0], .[1] + 1] | g else .[0] end; if . < %M% then . + 1 %T% | [., 0] | g | f else . end; 0 | f", want: "M"},
 	{prog: "last(def f: if . < %M% then ., (. + 1 %T% | f) else empty end; 0 | f)", want: "M-1"},
 	{prog: "def f: if .i < %M% then .i += 1 %T% | f else .i end; {i: 0} | f", want: "M"},
+	{prog: "def f: try error catch (if . < %M% then . + 1 %T% | f else . end); 0 | f", want: "M"},
+	{prog: "def f: try (if . < %M% then error else . end) catch (. + 1 %T% | f); 0 | f", want: "M"},
+	{prog: "def u(c; n): def _u: if c then . else n | _u end; _u; 0 | u(. >= %M%; . + 1 %T%)", want: "M"},
+	{prog: "def o(cc; $kk): def f: if cc then . + $kk %T% | f else . end; 0 | f; o(. < %M%; 1)", want: "M"},
+	{prog: "def o(cc; $kk): def h: . + $kk; def f: if cc then h %T% | f else . end; 0 | f; o(. < %M%; 1)", want: "M"},
+	{prog: "def f: foreach 1 as $x (.; . + 1 %T%; if . < %M% then f else . end); 0 | f", want: "M"},
 	{prog: "def f: if .[0] < %M% then [.[0] + 1, .[1]] %T% | f else .[0] end; [0, null] | f", want: "M"},
 	{prog: "def f: if . < %M% then . + 1 %T% | [.] | .[0] | f else . end; 0 | f", want: "M"},
 	{prog: "def f: if . < %M% then . + 1 %T% | reduce range(2) as $i (.; .) | f else . end; 0 | f", want: "M"},
@@ -745,7 +757,7 @@ func TestC20(t *testing.T) {
 	rec.Exhaustive(fmt.Sprintf("fixed-forms(%d stream + %d turn forms x %d magnitudes, %d controls)", len(streamForms), len(turnForms), len(sizes()), len(controlForms)), complete)
 
 	// (R1) generated tail-recursive definitions
-	rec.Rapid(t, "tailrec", rec.Scale(2400, 30000), func(t *rapid.T) {
+	rec.Rapid(t, "tailrec", rec.Scale(2400, 12000), func(t *rapid.T) {
 		c, classes := genTailRec(t)
 		if msg := judge("tailrec", c, classes...); msg != "" {
 			t.Fatalf("%s", rec.Fail("tailrec", c, "%s", msg))
@@ -753,7 +765,7 @@ func TestC20(t *testing.T) {
 	})
 
 	// (R2) generated compositions of the built-in iteration forms
-	rec.Rapid(t, "compose", rec.Scale(2400, 30000), func(t *rapid.T) {
+	rec.Rapid(t, "compose", rec.Scale(2400, 12000), func(t *rapid.T) {
 		c, classes := genCompose(t)
 		if msg := judge("compose", c, classes...); msg != "" {
 			t.Fatalf("%s", rec.Fail("compose", c, "%s", msg))
